@@ -194,8 +194,12 @@ def _run_q(q):
             kwf = lambda s_: {"clf": ens}
         else:
             kwf = kw
+        annot = None if q["annot"] is None else np.array(q["annot"]).copy()
+        if annot is not None and annot.dtype == bool and annot.ndim == 2:
+            # an availability matrix is "bool-like": the same 0/1 matrix as integers or floats means the same pairs
+            annot = annot.astype([bool, int, float, np.int8][q["seed"] % 4])
         return qs.query(X=q["X"].copy(), y=q["y"].copy(), candidates=None if q["cand"] is None else np.array(q["cand"]).copy(),
-                        annotators=None if q["annot"] is None else np.array(q["annot"]).copy(), batch_size=q["bs"],
+                        annotators=annot, batch_size=q["bs"],
                         return_utilities=True, **extra, **kwf(q["seed"]))
     try:
         idx, ut = with_timeout(go, 5.0)
